@@ -82,6 +82,19 @@ structure St where
 
 def St.note (st : St) (m : Rat) : St := { st with margin := rmin st.margin (rabs m) }
 
+/-! ### small named updates (keeps the terms of the step functions small) -/
+
+def St.insertBlocks (st : St) (a b : Nat) : St := { st with order := (st.order.push a).push b }
+def St.insertBlock (st : St) (a : Nat) : St := { st with order := st.order.push a }
+def St.pushInactive (st : St) (v : Nat) : St := { st with inactive := st.inactive.push v }
+def St.okAnd (st : St) (ok : Bool) : St := { st with fuelOut := st.fuelOut || !ok }
+def St.setLm (st : St) (lm : Array Rat) : St := { st with lm := lm }
+def St.incSplit (st : St) : St := { st with nSplit := st.nSplit + 1 }
+def St.incSplitBetween (st : St) : St := { st with nSplitBetween := st.nSplitBetween + 1 }
+def St.incFlagPath (st : St) : St := { st with nFlagPath := st.nFlagPath + 1 }
+def St.incFlagNoSplit (st : St) : St := { st with nFlagNoSplit := st.nFlagNoSplit + 1 }
+def St.incResat (st : St) : St := { st with nResat := st.nResat + 1 }
+
 /-! ### positions -/
 
 /-- `Variable::position()` given the variable and its block -/
@@ -333,8 +346,7 @@ def St.moveBlocks (st : St) : St :=
     (the callers then insert them into `Blocks::m_blocks`) -/
 def St.splitOn (st : St) (old : Nat) (ci : Nat) : St × Nat × Nat :=
   let r := st.split old ci
-  let st := r.1.markDeleted old
-  ({ st with inactive := st.inactive.push ci }, r.2.1, r.2.2)
+  ((r.1.markDeleted old).pushInactive ci, r.2.1, r.2.2)
 
 /-- body of the loop of `IncSolver::splitBlocks()` for the block at position `i` of `m_blocks` -/
 def St.splitBlockStep (st : St) (i : Nat) : St :=
@@ -348,7 +360,7 @@ def St.splitBlockStep (st : St) (i : Nat) : St :=
       let st := st.note gap
       let old := (st.vars[(st.cons[ci]!).l]!).block
       let q := st.splitOn old ci
-      { q.1 with order := (q.1.order.push q.2.1).push q.2.2, nSplit := q.1.nSplit + 1 }
+      (q.1.insertBlocks q.2.1 q.2.2).incSplit
     else st
 
 /-- `IncSolver::splitBlocks()` -/
@@ -403,11 +415,10 @@ def St.afterSplit (st : St) (v lid rid : Nat) : St :=
   | some s =>
     let st := st.note s
     if s ≥ 0 then
-      { st with inactive := st.inactive.push v, order := (st.order.push lid).push rid,
-                nResat := st.nResat + 1 }
+      ((st.pushInactive v).insertBlocks lid rid).incResat
     else
       let r := st.mergeAcross v
-      { r.1 with order := r.1.order.push r.2 }
+      r.1.insertBlock r.2
 
 /-- the in-block case of `IncSolver::satisfy` when no directed active path runs from right to left:
     `splitBetween` (findMinLMBetween + split), or flag when there is no split point -/
@@ -417,20 +428,18 @@ def St.splitBetween (st : St) (v : Nat) : St :=
   let fuel := st.vars.size + 1
   let b := st.blocks[lb]!
   let d := computeDfdv st lb fuel st.lm #[] b.vars[0]! none
-  let st := { st with lm := d.1, fuelOut := st.fuelOut || !d.2.2.2 }
+  let st := (st.setLm d.1).okAnd d.2.2.2
   let p := splitPath st lb c.r fuel c.l none
-  let st := { st with fuelOut := st.fuelOut || !p.2 }
+  let st := st.okAnd p.2
   let cands := (p.1.getD #[]).map fun ci => (ci, st.lm[ci]!)
   match argMinFirst cands with
   | none =>
     -- UnsatisfiableException: no split point
-    let st := st.flag v
-    { st with nFlagNoSplit := st.nFlagNoSplit + 1 }
+    (st.flag v).incFlagNoSplit
   | some (sc, _, gap) =>
     let st := st.note gap
     let q := st.splitOn lb sc
-    let st := { q.1 with nSplitBetween := q.1.nSplitBetween + 1 }
-    st.afterSplit v q.2.1 q.2.2
+    q.1.incSplitBetween.afterSplit v q.2.1 q.2.2
 
 /-- body of the `while` loop of `IncSolver::satisfy` for the chosen constraint `v` -/
 def St.process (st : St) (v : Nat) : St :=
@@ -442,10 +451,8 @@ def St.process (st : St) (v : Nat) : St :=
   else
     let fuel := st.vars.size + 1
     let dp := isActiveDirectedPathBetween st lb fuel c.r c.l
-    let st := { st with fuelOut := st.fuelOut || !dp.2 }
-    if dp.1 then
-      let st := st.flag v
-      { st with nFlagPath := st.nFlagPath + 1 }
+    let st := st.okAnd dp.2
+    if dp.1 then (st.flag v).incFlagPath
     else st.splitBetween v
 
 /-- loop condition of `IncSolver::satisfy`:
